@@ -29,8 +29,8 @@ FORBIDDEN = re.compile(r"\b(sorry|admit|native_decide|bv_decide|implemented_by|u
 os.environ.setdefault("WAVESPECTRA_VERIF", "1")
 
 
-def log(*a):
-    print(*a, file=sys.stderr, flush=True)
+def log(*a, **kw):
+    print(*a, file=sys.stderr, flush=True, **kw)
 
 
 # ----------------------------------------------------------------------------------------------
